@@ -111,7 +111,32 @@ impl genotype::Reader for SimGenotypeSource {
         self.pos
     }
 
+    #[cfg(not(verif_geno_fill))]
     fn read_genotypes(&mut self) -> ReadStatus<Vec<genotype::Result>> {
+        self.next_item()
+    }
+
+    /// buffer-filling shape of the trait method (see build.rs): the record replaces the buffer's content
+    #[cfg(verif_geno_fill)]
+    fn read_genotypes(&mut self, buf: &mut Vec<genotype::Result>) -> ReadStatus<()> {
+        match self.next_item() {
+            ReadStatus::Read(v) => {
+                buf.clear();
+                buf.extend(v);
+                ReadStatus::Read(())
+            }
+            ReadStatus::Error(e) => ReadStatus::Error(e),
+            ReadStatus::Done => ReadStatus::Done,
+        }
+    }
+
+    fn samples(&self) -> &[Sample] {
+        &self.samples
+    }
+}
+
+impl SimGenotypeSource {
+    fn next_item(&mut self) -> ReadStatus<Vec<genotype::Result>> {
         let mut st = self.stats.borrow_mut();
         st.reads += 1;
         if crate::harness::trace_on() {
@@ -157,9 +182,5 @@ impl genotype::Reader for SimGenotypeSource {
                 }
             }
         }
-    }
-
-    fn samples(&self) -> &[Sample] {
-        &self.samples
     }
 }
